@@ -57,6 +57,16 @@ fn main() {
             let code = with_prop!(id, p => engine::main_run(p, tier, seed, only));
             std::process::exit(code);
         }
+        "required" => {
+            // print the required labels of a property (tooling: compare with observed counts)
+            use fv::engine::Property;
+            let id = args[2].as_str();
+            let tier = if args.get(3).map(|s| s.as_str()) == Some("thorough") { Tier::Thorough } else { Tier::Quick };
+            with_prop!(id, p => for (l, m) in p.required_labels(tier) {
+                println!("{l}\t{m}");
+            });
+            std::process::exit(0);
+        }
         "gen-corpus" => {
             // deterministic seed corpus for the fuzz targets and the C14 corpus-replay stage
             let root = args.get(2).cloned().unwrap_or_else(|| "/verif/corpus".to_string());
